@@ -133,7 +133,10 @@ TolQuad(kind) == FxAdd(FxDivSmall(FxTol(TolQuadBits), RefMeasureInv(kind)), FxUl
 \* rules themselves are judged -- a boundary node that is tabulated as -1e-15 is a rounded table, not a misplaced node)
 TolNode == FxTol(42)
 \* sums / pairings of assembled numbers (relative to a stated integer scale)
-TolSum  == FxTol(40)
+\* (2^-37: the worst round-off observed on the unchanged tree is between 2^-48 and 2^-47 of the magnitude -- per-cell
+\* values on the graded 2116-cell mesh -- so the safety factor is >= 1000; the smallest effect of a wrong weight,
+\* determinant or order is > 2^-20 of the magnitude)
+TolSum  == FxTol(37)
 \* maps, Jacobians, normals
 TolGeom == FxTol(36)
 
